@@ -576,8 +576,18 @@ def snapshot(c):
 def do_use(env, st, step):
     """an interleaved use of an earlier instance (or the singleton / the harness' own contexts); never asserts"""
     on = step["on"]
-    c = env.ctxs[on] if isinstance(on, str) else st["inst"][on]
     what, arg = step["what"], step.get("arg")
+    if what == "forget":
+        # the caller drops its last reference to an instance built by this sequence: the object is freed, and a context constructed
+        # later may well live at the same address — nothing remembered about the dead instance may be served to the new one
+        import gc
+
+        if isinstance(on, int) and on < len(st["inst"]):
+            st["inst"][on] = None
+            st["snaps"][on] = None
+            gc.collect()
+        return "ok"
+    c = env.ctxs[on] if isinstance(on, str) else st["inst"][on]
     if c is None:
         return "skipped"
     try:
@@ -689,6 +699,9 @@ def make_sequences(rng, ctx: Ctx):
         [U("default", "repr"), N("2018"), U("2018", "repr"), N("default-arg")],
         [U("default", "siblings"), N("2014"), N("2018")],
         [N("2018"), U(0, "ureg"), U(0, "conv"), N("2018"), U("default", "aux"), N("2014"), N("2018")],
+    ] + [
+        # build, look everything up, drop, build the OTHER set (address reuse after garbage collection is likely, not certain: repeated)
+        [N("2014"), U(0, "forget"), N("2018"), U(1, "forget"), N("2014"), U(2, "forget"), N("2018")] for _ in range(3)
     ]
     names14 = ["Hartree energy", "molar Planck constant times c", "hartree2kcalmol", "Bohr radius", "electric constant", "calorie-joule relationship"]
     convs = [("bohr", "angstrom"), ("hartree", "kcal/mol"), ("hartree", "wavenumber")]
